@@ -149,6 +149,12 @@ type attempt struct {
 	kind   string // "200", "503", "err"
 	readTo int    // bytes to read before answering; -1 = whole body
 	linger bool   // the body reader outlives RoundTrip (net/http allows it; the transport's write loop does it)
+	// lateClose: the body is closed by the transport only after RoundTrip has returned (net/http allows
+	// that too), i.e. possibly while the next attempt is reading
+	lateClose bool
+	// copyBreak > 0: the transport streams the body with io.Copy (using WriteTo if the body has one) into
+	// a connection that accepts this many bytes and then breaks
+	copyBreak int
 }
 
 type attemptLog struct {
@@ -186,6 +192,21 @@ func (p *proxyRT) RoundTrip(req *http.Request) (*http.Response, error) {
 	if i < len(p.plan) {
 		a = p.plan[i]
 	}
+	if a.copyBreak > 0 {
+		bw := &breakingWriter{limit: a.copyBreak, l: l, p: p}
+		_, err := io.Copy(bw, req.Body)
+		vs.Touch(unsafe.Pointer(p))
+		l.answered = "err"
+		if err == nil {
+			// the body ended before the connection broke: an ordinary 503 then
+			l.eof = true
+			l.answered = "503"
+			req.Body.Close()
+			return reply(503), nil
+		}
+		req.Body.Close()
+		return nil, errors.New("scripted: write tcp: broken pipe")
+	}
 	buf := make([]byte, p.bufSize())
 	readSome := func() bool {
 		n, err := req.Body.Read(buf)
@@ -222,6 +243,11 @@ func (p *proxyRT) RoundTrip(req *http.Request) (*http.Response, error) {
 			l.late = len(l.got) - before
 			l.got = l.got[:before]
 		})
+	} else if a.lateClose {
+		vs.Go(func() {
+			vs.Point("transport: closes the request body late", nil)
+			req.Body.Close()
+		})
 	} else {
 		req.Body.Close()
 	}
@@ -233,6 +259,27 @@ func (p *proxyRT) RoundTrip(req *http.Request) (*http.Response, error) {
 	default:
 		return nil, errors.New("scripted connection failure")
 	}
+}
+
+// breakingWriter is a connection that accepts limit bytes and then fails every write.
+type breakingWriter struct {
+	limit int
+	l     *attemptLog
+	p     *proxyRT
+}
+
+func (b *breakingWriter) Write(d []byte) (int, error) {
+	vs.Touch(unsafe.Pointer(b.p))
+	room := b.limit - len(b.l.got)
+	if room <= 0 {
+		return 0, errors.New("write tcp: broken pipe")
+	}
+	if len(d) <= room {
+		b.l.got = append(b.l.got, d...)
+		return len(d), nil
+	}
+	b.l.got = append(b.l.got, d[:room]...)
+	return room, errors.New("write tcp: broken pipe")
 }
 
 func (p *proxyRT) bufSize() int {
@@ -474,6 +521,12 @@ func c06Scenario(writes []int, plan []attempt, pb int) vx.Scenario {
 		if a.linger {
 			l = "L"
 			lingering = true
+		}
+		if a.lateClose {
+			l += "C"
+		}
+		if a.copyBreak > 0 {
+			l += fmt.Sprintf("/copy-breaks@%d", a.copyBreak)
 		}
 		pn = append(pn, fmt.Sprintf("%s@%d%s", a.kind, a.readTo, l))
 	}
@@ -733,6 +786,17 @@ func c06Scenarios(thorough bool) []vx.Scenario {
 				out = append(out, c06Scenario([]int{n}, []attempt{{kind: k, readTo: -1}}, 1))
 				out = append(out, c06Scenario([]int{n, 10}, []attempt{{kind: k, readTo: 4097}}, 1))
 			}
+		}
+	}
+	// the transport closes the body of a failed attempt late; the connection breaks in the middle of a write
+	for _, ws := range [][]int{{10}, {1000}, {4097}} {
+		for _, k := range kinds {
+			out = append(out, c06Scenario(ws, []attempt{{kind: k, readTo: -1, lateClose: true}}, pb+1))
+			out = append(out, c06Scenario(ws, []attempt{{kind: k, readTo: -1, lateClose: true}, {kind: k, readTo: -1, lateClose: true}}, pb))
+		}
+		for _, n := range []int{1, 20, 60, 100, 150, 1000, 4000} {
+			out = append(out, c06Scenario(ws, []attempt{{kind: "err", copyBreak: n}}, 0))
+			out = append(out, c06Scenario(ws, []attempt{{kind: "503", readTo: -1}, {kind: "err", copyBreak: n}}, 0))
 		}
 	}
 	for _, ws := range sizes {
